@@ -13,7 +13,6 @@ from gen import spacegroups as sg
 
 IMPORTS = ('From Coq Require Import ZArith List Bool PrimFloat.\nFrom SX Require Import Base.Num Base.NumF Model.Sdm.\n'
            'Import ListNotations.\n')
-MAX_MOL = 6
 
 PRE = '''
 Definition fclose (a b : float) : bool := PrimFloat.leb (PrimFloat.abs (PrimFloat.sub a b)) 0x1.0p-30%float.
@@ -97,9 +96,9 @@ def coq_checks(ob, k, with_q=False):
     t.append('all2b item_ok (sdm_items FOps met%d ops%d ats%d) %s' % (k, k, k, items))
     t.append('(fix eqz (a b : list Z) := match a, b with x :: r, y :: s => Z.eqb x y && eqz r s | [], [] => true | _, _ => false end) '
              '(molindex (sdm_items FOps met%d ops%d ats%d) ats%d) %s' % (k, k, k, k, mol))
-    t.append('let its := sdm_list FOps met%d ops%d ats%d in all2b need_ok (needed_symmetry FOps met%d ops%d ats%d its (molindex its ats%d) %d) %s' % (
-        k, k, k, k, k, k, k, MAX_MOL, needs))
-    t.append('all2b grown_ok (grow FOps met%d ops%d ats%d %d %s) %s' % (k, k, k, MAX_MOL, cbool(with_q), clist(gl)))
+    t.append('let its := sdm_list FOps met%d ops%d ats%d in all2b need_ok (needed_symmetry FOps met%d ops%d ats%d its (molindex its ats%d)) %s' % (
+        k, k, k, k, k, k, k, needs))
+    t.append('all2b grown_ok (grow FOps met%d ops%d ats%d %s) %s' % (k, k, k, cbool(with_q), clist(gl)))
     return t
 
 
